@@ -28,6 +28,7 @@ PROP_MODULES = {
     "C01": ["c01", "c03"],
     "C03": ["c03"],
     "C10": ["c01", "c03", "c10"],
+    "C16": ["c16"],
 }
 
 
